@@ -23,6 +23,12 @@ if [ "$TOOL" = interrogate ]; then
   run -c -oc ok.cxx -od full.in
   run -c -oc ok.cxx -od ok.in -oh full.txt
   run -c -oc $W/missing-dir/x.cxx -od ok.in
+  run -c -oc ok.cxx -od $W/missing-dir/x.in
+  run -c -oc ok.cxx -od ok.in -oh $W/missing-dir/x.txt
+  mkdir -p $W/a-directory
+  run -c -oc ok.cxx -od ok.in -oh $W/a-directory
+  run -c -oc $W/a-directory -od ok.in
+  run -c -oc ok.cxx -od $W/a-directory
 else
   $B/bin/interrogate -DCPPPARSER -D__STDC__=1 -module m -library l -c -oc ok.cxx -od ok.in t.h >/dev/null 2>&1
   runm() { $B/bin/interrogate_module "$@" ok.in >out.txt 2>&1; rc=$?; echo "interrogate_module $* -> exit $rc"; [ $rc -eq 0 ] && bad=1; }
